@@ -10,8 +10,11 @@ EXTENDS FzfAlgoV2, Json, IOUtils, TLC
 TraceLog == ndJsonDeserialize(IOEnv.TRACE)
 Shards == 16
 VARIABLE l
-JInit == l \in 1..(IF Len(TraceLog) < Shards THEN Len(TraceLog) ELSE Shards)
-JNext == l + Shards <= Len(TraceLog) /\ l' = l + Shards
+(* l = 0 is a dummy initial state: TLC evaluates initial states on its main thread, whose stack is small; the     *)
+(* records (deep recursions over texts of 300 symbols) are all evaluated by worker threads                        *)
+JInit == l = 0
+JNext == IF l = 0 THEN l' \in 1..(IF Len(TraceLog) < Shards THEN Len(TraceLog) ELSE Shards)
+         ELSE l + Shards <= Len(TraceLog) /\ l' = l + Shards
 
 Got(r) == [s |-> r.s, e |-> r.e, sc |-> r.sc, pos |-> r.pos]
 Spec(r) == F(r.kind, r.t, r.p, r.cs, r.norm, r.fwd, r.sch, r.cap16)
@@ -58,5 +61,5 @@ Explained(r) ==
          [] r.chk = "exact" -> LET f == Spec(r) IN /\ r.s = f.s /\ r.e = f.e /\ r.sc = f.sc
                                                    /\ (r.wp => r.pos = f.pos)
          [] r.chk = "rle" -> ValidRle(r)
-JInv == Explained(TraceLog[l]) \/ PrintT(<<"MISMATCH", l>>)
+JInv == l = 0 \/ Explained(TraceLog[l]) \/ PrintT(<<"MISMATCH", l>>)
 ================================================================================
